@@ -2,7 +2,21 @@ package compiler
 
 import (
 	"strings"
+	"unicode/utf16"
 )
+
+// utf16Len returns the length of s in UTF-16 code units.
+func utf16Len(s string) int {
+	n := 0
+	for _, r := range s {
+		if l := utf16.RuneLen(r); l > 0 {
+			n += l
+		} else {
+			n++
+		}
+	}
+	return n
+}
 
 type Position struct {
 	Line int
@@ -48,7 +62,8 @@ func (sm *SourceMap) Add(t token, destRange Range) {
 			sm.TargetLinesToSource[tgtLine] = make(map[int]Position)
 		}
 
-		for colIndex := 0; colIndex <= len(line); colIndex++ {
+		// columns are UTF-16 code units, the unit of LSP positions
+		for colIndex := 0; colIndex <= utf16Len(line); colIndex++ {
 			sm.SourceLinesToTarget[srcLine][srcCol+colIndex] = Position{Line: tgtLine, Col: tgtCol + colIndex}
 			sm.TargetLinesToSource[tgtLine][tgtCol+colIndex] = Position{Line: srcLine, Col: srcCol + colIndex}
 		}
